@@ -339,7 +339,7 @@ def run(ctx):
                 "reconnections_of_restart_tasks", "losses_with_restart_task_registered", "no_instance_after_connection-loss",
                 "no_instance_after_remove_task", "no_instance_after_registry-stop", "settle_points_checked",
                 "user_start_while_disconnected_not_judged")
-    n = ctx.scale(3000, 320000)
+    n = ctx.scale(3000, 240000)
     for i in range(n):
         if ctx.mine(i):
             run_one(ctx, f"C36/{ctx.seed}/{i}", i)
